@@ -514,12 +514,14 @@ def aligned_short_read(ctx, hcls, hp):
         return isinstance(e, ast.Attribute) and isinstance(e.value, ast.Name) and e.value.id == f_.self_name
     reads = [n for n in own_nodes(nx.node) if isinstance(n, ast.Assign) and isinstance(n.value, ast.Call) and isinstance(n.value.func, ast.Attribute) and n.value.func.attr == "readinto"
              and n.value.args and (isinstance(n.value.args[0], ast.Name) or self_attr(n.value.args[0], nx)) and isinstance(n.targets[0], ast.Name)]
-    if len(reads) != 1:
+    if len(reads) != 1 and not (reads and len({norm(r_) for r_ in reads}) == 1):
         ctx.undecided("C15.3", nx, "expected one readinto in the v1 hasher's __next__, found %d" % len(reads))
         return
+    # (the same read written twice - once before a `while size == 0` loop and once in it - is one read)
     barg = reads[0].value.args[0]
     sz = reads[0].targets[0].id
     rn = C.stmt_node(ctx, nx, reads[0])
+    read_nodes = [C.stmt_node(ctx, nx, r_) for r_ in reads]
     if isinstance(barg, ast.Name):
         buf = barg.id
         cap, fresh = buffer_info(ctx, nx, g, rdf, buf, rn)
@@ -578,12 +580,21 @@ def aligned_short_read(ctx, hcls, hp):
         return None
 
     sites = 0
-    after = C.reach_under(g, rn, short_aligned, stop=[rn])
+    after = set()
+    for rn_ in read_nodes:
+        after |= set(C.reach_under(g, rn_, short_aligned, stop=read_nodes))
     for r in [n for n in own_nodes(nx.node) if isinstance(n, ast.Return) and n.value is not None]:
         node = C.stmt_node(ctx, nx, r)
         if node is None or node not in after:
             continue            # not reached after a short non-empty read with align on
         sites += 1
+        tests_ = [C.test_expr(b_) for b_, _l in g.control_deps(node) if C.test_expr(b_) is not None]
+        from .c01 import _speaks_of_a_copy
+        if tests_ and _speaks_of_a_copy(ctx, nx, tests_, sz):
+            # the tests that select this return speak of a copy of the count (chunk_size = size): which return a short read
+            # takes was not decided by them, so what this one hashes says nothing about the short aligned case
+            ctx.undecided("C15.3", nx, "`%s` is selected by tests on a copy of the byte count %r; whether a short aligned read takes it is not decided" % (norm(r)[:50], sz), r)
+            continue
         # statements of the same block that precede the return
         par = ctx.prog.parent.get(r)
         prefix = []
@@ -624,7 +635,8 @@ def aligned_short_read(ctx, hcls, hp):
             ctx.undecided("C15.3", nx, "what `%s` hashes after a short read of an aligned torrent could not be followed: %s" % (norm(r)[:50], exc), r)
             continue
         except Continued as exc:
-            ctx.violated("C15.3", hp, "align switch on, short piece: %s - the piece is completed with the next file's bytes, not with the zero bytes the padding entry stands for" % exc, r)
+            ctx.violated("C15.3", hp, "align switch on, short piece: %s before the piece is complete - what completes it then depends on whether another file follows (its bytes, or nothing at all "
+                         "after the last file), not on the zero bytes the padding entry stands for" % exc, r)
             continue
         got = canon(got)
         ctx.decide("C15.3", nx, got == want, "align switch on, short piece: `%s` hashes the bytes read followed by piece_length - n zero bytes" % norm(r)[:50],
